@@ -240,9 +240,10 @@ def h_kernel_cache(h):
             os.makedirs(os.path.join(d, sub))
             p = os.path.join(d, sub, 'kernel.csv')
             with open(p, 'w') as f:
-                f.write('p,0.5,1.0\n')
+                # (pore widths in increasing numeric order; '10.0' sorts before '2.5' as a string)
+                f.write('p,0.5,1.0,2.5,10.0\n')
                 for i, pr in enumerate([0.1, 0.2, 0.4, 0.6, 0.8]):
-                    f.write(f'{pr},{scale * (i + 1)},{scale * 2 * (i + 1)}\n')
+                    f.write(f'{pr},{scale * (i + 1)},{scale * 2 * (i + 1)},{scale * 3 * (i + 1)},{scale * 4 * (i + 1)}\n')
             paths.append(p)
         ka = pk._load_kernel(paths[0])
         kb = pk._load_kernel(paths[1])
@@ -255,6 +256,9 @@ def h_kernel_cache(h):
         except ValueError:
             refused = True
         h.claim('C18/kernel-cache/interpolator-refuses-pressures-outside-the-kernel-range', refused)
+        widths = [float(w) for w in ka.keys()]
+        h.claim('C18/kernel-cache/pore-widths-in-the-order-of-the-file(increasing)', widths == [0.5, 1.0, 2.5, 10.0], info=str(widths))
+        h.claim('C18/kernel-cache/each-width-keeps-its-own-column', abs(float(ka['10.0'](0.4)) - 12.0) < 1e-9 and abs(float(ka['2.5'](0.4)) - 9.0) < 1e-9)
         for p in paths:
             pk._LOADED.pop(p, None)
     finally:
